@@ -225,3 +225,159 @@ func storesToSameField(fn *ssa.Function, fa *ssa.FieldAddr) bool {
 	}
 	return false
 }
+
+// sharedLoopVarCapture: a goroutine (or deferred / stored closure) created inside a loop captures a
+// variable that the loop assigns on every iteration but that is allocated once outside it (range and
+// for-clause variables under the module's language version, go < 1.22): all goroutines read the
+// value of whichever iteration runs last.
+type loopCapture struct {
+	At  ssa.Instruction
+	Var *ssa.Alloc
+}
+
+func sharedLoopVarCaptures(fn *ssa.Function) []loopCapture {
+	var out []loopCapture
+	if fn.Blocks == nil {
+		return nil
+	}
+	for _, b := range fn.Blocks {
+		for _, ins := range b.Instrs {
+			g, isGo := ins.(*ssa.Go)
+			if !isGo {
+				continue
+			}
+			mc, isMC := g.Call.Value.(*ssa.MakeClosure)
+			if !isMC {
+				continue
+			}
+			hdr := enclosingLoopHeader(b)
+			if hdr == nil {
+				continue
+			}
+			inLoop := loopBlocks(hdr)
+			for _, bind := range mc.Bindings {
+				a, isA := bind.(*ssa.Alloc)
+				if !isA || inLoop[a.Block()] {
+					continue
+				}
+				// assigned inside the loop
+				for _, st := range engine.StoresTo(a) {
+					if inLoop[st.Block()] {
+						out = append(out, loopCapture{At: g, Var: a})
+						break
+					}
+				}
+			}
+		}
+	}
+	return out
+}
+
+func init() {
+	if os.Getenv("VERIF_RESET_PROBE") == "" {
+		return
+	}
+	register("XLOOP", func(p *engine.Prog, r *engine.Report) {
+		for _, f := range p.AllFuncs() {
+			if pk := engine.FuncPkg(f); pk == nil || !engine.IsRepoPkg(pk) || f.Synthetic != "" || f.Blocks == nil || isTestish(p.Pos(f.Pos())) {
+				continue
+			}
+			for _, c := range sharedLoopVarCaptures(f) {
+				r.Note("XLOOP", engine.RelName(f)+"|"+c.Var.Comment, p.InstrPos(c.At), "goroutine captures a loop variable shared by all iterations")
+			}
+		}
+	})
+}
+
+// poolUseAfterPut: typestate of sync.Pool objects. A value handed back with Put (directly or by a
+// deferred Put) must not leave the function through a result, and a direct Put must not be followed
+// by another use of the value.
+func poolUseAfterPut(fn *ssa.Function) []ssa.Instruction {
+	var out []ssa.Instruction
+	if fn.Blocks == nil {
+		return nil
+	}
+	under := func(v ssa.Value) ssa.Value {
+		v = engine.Unwrap(v)
+		if mi, ok := v.(*ssa.MakeInterface); ok {
+			return engine.Unwrap(mi.X)
+		}
+		return v
+	}
+	for _, b := range fn.Blocks {
+		for idx, ins := range b.Instrs {
+			var cc *ssa.CallCommon
+			deferred := false
+			switch x := ins.(type) {
+			case *ssa.Call:
+				cc = &x.Call
+			case *ssa.Defer:
+				cc, deferred = &x.Call, true
+			default:
+				continue
+			}
+			obj := engine.CalleeObj(cc)
+			if obj == nil || obj.Name() != "Put" || obj.Pkg() == nil || obj.Pkg().Path() != "sync" {
+				continue
+			}
+			args := cc.Args
+			if len(args) < 2 {
+				continue
+			}
+			v := under(args[1])
+			// (a) escapes through a result
+			for _, ret := range engine.Returns(fn) {
+				for _, res := range ret.Results {
+					if under(res) == v || engine.BackSlice(res, engine.SliceOpts{ThroughLoads: true, MaxNodes: 200})[v] {
+						if _, isPtrOrIface := res.Type().Underlying().(*types.Basic); !isPtrOrIface {
+							if _, isArr := res.Type().Underlying().(*types.Array); !isArr {
+								out = append(out, ins)
+							}
+						}
+					}
+				}
+			}
+			// (b) used after a direct Put
+			if !deferred && v.Referrers() != nil {
+				for _, ref := range *v.Referrers() {
+					if ref == ins || ref.Parent() != fn {
+						continue
+					}
+					if _, isDbg := ref.(*ssa.DebugRef); isDbg {
+						continue
+					}
+					after := false
+					if ref.Block() == b {
+						for j := idx + 1; j < len(b.Instrs); j++ {
+							if b.Instrs[j] == ref {
+								after = true
+							}
+						}
+					} else if b.Dominates(ref.Block()) {
+						after = true
+					}
+					if after {
+						out = append(out, ref)
+					}
+				}
+			}
+		}
+	}
+	return out
+}
+
+func init() {
+	if os.Getenv("VERIF_RESET_PROBE") == "" {
+		return
+	}
+	register("XPOOL", func(p *engine.Prog, r *engine.Report) {
+		for _, f := range p.AllFuncs() {
+			if pk := engine.FuncPkg(f); pk == nil || !engine.IsRepoPkg(pk) || f.Synthetic != "" || f.Blocks == nil || isTestish(p.Pos(f.Pos())) {
+				continue
+			}
+			for _, c := range poolUseAfterPut(f) {
+				r.Note("XPOOL", engine.RelName(f), p.InstrPos(c), "pooled value used after / escapes past Put")
+			}
+		}
+	})
+}
